@@ -170,3 +170,12 @@ Definition item_line (i : item) : M sentence * option exn :=
   end.
 
 Definition schedule_lines (s : schedule) : list (M sentence * option exn) := map item_line s.
+
+Definition has_delivery {A} (out : list A) : bool := match out with [] => false | _ :: _ => true end.
+
+(* what the parser hands to a reader carries no wrapper yet (NMEASentence.__init__ sets wrapper_msg = None) *)
+Definition fresh_line (l : M sentence * option exn) : Prop :=
+  match l with
+  | (Ok (SAis a), _) => a_wrapper a = None
+  | _ => True
+  end.
